@@ -2120,7 +2120,19 @@ pub fn scen_golden(ctx: &Ctx) -> i32 {
             let mut r = rng.fork((gi * 10 + round) as u64);
             let mut p = Profile::basic(hist.kt, 64, 60);
             p.w = [40, 15, 15, 3, 2, 1, 3, 1, 0, 1, 0, 2, 0, 0];
-            let cont = gen_history(&mut r, &p);
+            // odd rounds: values above 1 KiB too, so that the large free list of the released image is used
+            if round % 2 == 1 {
+                p.val_mode = 2;
+            }
+            let mut cont = gen_history(&mut r, &p);
+            // directed tail: two slots above 1024 bytes are allocated (the released image's large free list is
+            // searched) and freed again under the current code; the decoder then looks at where they were filed
+            let (k1, k2) = (gen_key(&mut r, hist.kt, 0), gen_key(&mut r, hist.kt, 0));
+            cont.ops.push(Op::Put(k1.clone(), B::Pat(1100 + r.below(900) as usize, 5)));
+            cont.ops.push(Op::Put(k2.clone(), B::Pat(2050 + r.below(3000) as usize, 6)));
+            cont.ops.push(Op::Del(k1));
+            cont.ops.push(Op::Del(k2));
+            cont.ops.push(Op::Stats);
             let mut d = Driver::spawn(&ctx.driver).ok();
             // phase 1: the model alone replays the golden history, then the golden files are compared with render(model)
             let mut diffs: Vec<Diff> = Vec::new();
